@@ -1,6 +1,7 @@
 import StorageModel.Driver.Common
 import StorageModel.C03.Layered
 import StorageModel.C03.LayeredSpec
+import StorageModel.C03.Chain
 /- model driver for C03: `run spec` reads case lines on stdin and prints one output line per case
    (spec = false: the engine model's output; spec = true: the spec's verdict).
    Line protocol: see /verif/harness/c03.go. -/
@@ -150,8 +151,82 @@ def runSpec (sch : Schema) (vals : List Bytes) (txs : List (List Op)) : String :
       go t' dump rest (rec_ :: acc)
   "|".intercalate (go Spec.SState.empty "" txs [])
 
+/-! store chains (`k` lines; harness/c03_chain.go) -/
+namespace ChainDrv
+
+def parseRecs : List String → Option (List C03.Chain.Rec)
+  | [] => some []
+  | u :: s :: rest => do
+    let r ← parseRecs rest
+    pure (⟨← Bytes.ofHex u, ← parseList s⟩ :: r)
+  | _ => none
+
+def parseSel (s : String) : Option (List C03.Chain.Sel) :=
+  if s = "*" then none
+  else some (s.toList.map fun c => ⟨c == 'b' || c == 'u', c == 'b' || c == 's'⟩)
+
+def parseOp (s : String) : Option C03.Chain.Op :=
+  match s.splitOn ":" with
+  | "c" :: id :: rest => do pure (.create (← Bytes.ofHex id) (← parseRecs rest))
+  | "u" :: id :: chk :: rest => do pure (.update (← Bytes.ofHex id) (← parseRecs rest) (parseSel chk))
+  | ["d", id, _] => do pure (.delete (← Bytes.ofHex id))
+  | _ => none
+
+def parseTxs (s : String) : Option (List (List C03.Chain.Op)) :=
+  (s.splitOn "|").mapM fun t => (t.splitOn ",").mapM parseOp
+
+def readsLevels (vals : List Bytes) : Nat → List (Map Bytes Id × Map Bytes (List Id)) → String
+  | _, [] => "e"
+  | j, (uq, st) :: rest =>
+    String.join (vals.map fun v =>
+      "u" ++ toString j ++ ":" ++ hexB v ++ "=" ++ optIdW (uq.lookup v) ++ ";s" ++ toString j ++ ":" ++ hexB v ++ "=" ++
+      listW (setOf ((st.lookup v).getD [])) ++ ";") ++ readsLevels vals (j + 1) rest
+
+def resW (s : C03.Chain.State) (ops : List C03.Chain.Op) : String :=
+  match C03.Chain.applyOps s ops 0 with
+  | .ok _ => "ok"
+  | .error (i, e) => "err:" ++ errName e ++ "@" ++ toString i
+
+def runModel (vals : List Bytes) (txs : List (List C03.Chain.Op)) : String :=
+  let rec go (s : C03.Chain.State) (prev : String) (txs : List (List C03.Chain.Op)) (acc : List String) : List String :=
+    match txs with
+    | [] => acc.reverse
+    | ops :: rest =>
+      let s' := (C03.Chain.txStep s ops).1
+      let dump := dumpW (C03.Chain.Render s')
+      let shown := if dump == prev then "=" else dump
+      let rec_ := resW s ops ++ "#" ++ shown ++ "#" ++ readsLevels vals 0 (s'.levels.map fun L => (L.uniq, L.set)) ++ "#."
+      go s' dump rest (rec_ :: acc)
+  "|".intercalate (go (C03.Chain.State.empty 3) "" txs [])
+
+def specResW (t : C03.Chain.Spec.SState) (ops : List C03.Chain.Op) : String :=
+  match C03.Chain.Spec.applyOps t ops 0 with
+  | .ok _ => "ok"
+  | .error (i, es) => "err:" ++ "/".intercalate (es.map errName) ++ "@" ++ toString i
+
+def runSpec (vals : List Bytes) (txs : List (List C03.Chain.Op)) : String :=
+  let rec go (t : C03.Chain.Spec.SState) (prev : String) (txs : List (List C03.Chain.Op)) (acc : List String) : List String :=
+    match txs with
+    | [] => acc.reverse
+    | ops :: rest =>
+      let t' := (C03.Chain.Spec.txStep t ops).1
+      let dump := dumpW (C03.Chain.Spec.render t')
+      let shown := if dump == prev then "=" else dump
+      let rec_ := specResW t ops ++ "#" ++ shown ++ "#" ++
+        readsLevels vals 0 (t'.tables.map fun tb => (C03.Chain.Spec.uniqIndex tb, C03.Chain.Spec.setIndex tb)) ++ "#-"
+      go t' dump rest (rec_ :: acc)
+  "|".intercalate (go (C03.Chain.Spec.SState.empty 3) "" txs [])
+
+def stepLine (spec : Bool) (vals txs : String) : String :=
+  match parseList vals, parseTxs txs with
+  | some vs, some ts => if spec then runSpec vs ts else runModel vs ts
+  | _, _ => "bad-case"
+
+end ChainDrv
+
 def stepWith (f : Schema → List Bytes → List (List Op) → String) (line : String) : String :=
   match splitSp line with
+  | ["k", vals, txs] => ChainDrv.stepLine false vals txs
   | ["h", vals, txs] =>
     match parseList vals, parseTxs Schema.plain txs with
     | some vs, some ts => f Schema.plain vs ts
@@ -166,7 +241,10 @@ def stepWith (f : Schema → List Bytes → List (List Op) → String) (line : S
   | _ => "bad-case"
 
 def step (line : String) : String := stepWith runModel line
-def specStep (line : String) : String := stepWith runSpec line
+def specStep (line : String) : String :=
+  match splitSp line with
+  | ["k", vals, txs] => ChainDrv.stepLine true vals txs
+  | _ => stepWith runSpec line
 
 def run (spec : Bool) : IO Unit := forEachLine (if spec then specStep else step)
 
